@@ -13,7 +13,7 @@ RULE = ("a pool of deterministic requests (seeded keygen, deterministic sign, ve
 EXPLANATION = ("Props/C10.lean: history independence of drawing-free operations in the sequential machine. The OS scheduler is not "
                "modelled; a race that never manifests in the explored schedules is outside what this technique can exhibit (partial).")
 ASSUMPTIONS = ["thread schedules are sampled (harness threads), not enumerated"]
-_st = {"pool": [], "scan": None}
+_st = {"pool": [], "scan": None, "iso": set()}
 
 
 def source_scan():
@@ -44,7 +44,17 @@ def model_assumption_broken():
     return []
 
 
+def replay_with(lines, i):
+    """a failing ordered history is replayed together with its calls run on their own"""
+    if lines[i].startswith("@impl sequence "):
+        reqs = {x.strip() for x in lines[i][len("@impl sequence "):].split(";;")}
+        return [k for k, l in enumerate(lines) if l.strip() in reqs and not l.startswith("@")]
+    return []
+
+
 def weight(line):
+    if line.startswith("@impl sequence"):
+        return line.count(";;") + 1
     if line.startswith("@impl interleave"):
         t = line.split()
         return int(t[2]) * int(t[3]) * (line.count(";;") + 1)
@@ -68,12 +78,13 @@ def followup(stage, lines, model, checked, release, tier, rng):
             if "::keypair" in ln and ans.startswith("ok "):
                 s = ln.split("::")[1]
                 pk, sk = K.keys_of(ans)
-                msg = R(20)
-                r = K.sign_raw(s, msg, sk, 0)
                 _st["pool"].append(ln)
-                _st["pool"].append(r)
-                L.append(r)
-                _st.setdefault("sigreq", []).append((s, msg, pk, r))
+                for _ in range(2):          # two signatures per key: the rejected calls of a history are mangled versions of the other one
+                    msg = R(20)
+                    r = K.sign_raw(s, msg, sk, 0)
+                    _st["pool"].append(r)
+                    L.append(r)
+                    _st.setdefault("sigreq", []).append((s, msg, pk, r))
         return L
     if stage == 2:
         idx = {l: i for i, l in enumerate(lines)}
@@ -88,6 +99,39 @@ def followup(stage, lines, model, checked, release, tier, rng):
         rounds = 1 if tier == "quick" else 4
         for th in (1, 2, 4, 8, 16):
             L.append("@impl interleave %d %d %s" % (th, rounds, " ;; ".join(pool)))
+        # ordered histories on one thread of one process: rejected calls (early and late rejects, which leave partially
+        # filled temporaries behind), near-duplicate public keys (same rho, other t1), other keys, then the valid call again
+        from .. import pyspec
+        seqs = []
+        for (s, msg, pk, r) in _st["sigreq"]:
+            sig = K.sig_of(checked[lines.index(r)]) if r in lines else None
+            if not sig:
+                continue
+            P = pyspec.P(s)
+            other = [(m2, r2) for (s2, m2, pk2_, r2) in _st["sigreq"] if pk2_ == pk and r2 != r]
+            osig = K.sig_of(checked[lines.index(other[0][1])]) if other and other[0][1] in lines else None
+            omsg = other[0][0] if osig else msg
+            b = bytearray.fromhex(osig or sig)
+            bad_hint = bytearray(b); bad_hint[-1] = 255
+            bad_z = bytearray(b); bad_z[P.ctilde:P.ctilde + 3] = b"\0\0\0"
+            pk2 = bytearray.fromhex(pk); pk2[-1] ^= 1
+            good = K.verify_raw(s, sig, msg, pk)
+            va = [K.verify_raw(s, bad_hint.hex(), omsg, pk), good, K.verify_raw(s, bad_z.hex(), omsg, pk), good,
+                  K.verify_raw(s, sig, msg + b"x", pk), good]
+            vb = [K.verify_raw(s, sig, msg, pk2.hex()), good, K.verify_raw(s, sig, msg, pk2.hex())]
+            vc = [good, K.verify_raw(s, sig, msg, pk2.hex()), good]
+            seqs += [va, vb, vc]
+        kg = [l for l in pool if "::keypair" in l]
+        sg = [l for l in pool if "::signature" in l]
+        mixed = []
+        for a, b2 in zip(kg, sg):
+            mixed += [a, b2]
+        seqs.append(mixed + mixed[::-1] + mixed)
+        for q in seqs:
+            for l in q:
+                if l not in _st["iso"]:
+                    _st["iso"].add(l); L.append(l)
+            L.append("@impl sequence " + " ;; ".join(q))
         # history: randomized operations in between, then the pool again in shuffled order (sequential process)
         sh = list(pool); rng.shuffle(sh)
         for i, l in enumerate(sh):
@@ -108,6 +152,18 @@ def violated_all(lines, model, checked, release):
             for prof, ans in (("checked", checked), ("wrapping", release)):
                 if not ans[i].startswith("ok ") or " mismatches=0 " not in ans[i]:
                     out.append((i, "%s build: results changed under concurrent execution on %s threads: %s" % (prof, l.split()[2], ans[i][:120])))
+        elif l.startswith("@impl sequence "):
+            reqs = [x.strip() for x in l[len("@impl sequence "):].split(";;")]
+            for prof, ans in (("checked", checked), ("wrapping", release)):
+                got = [x.strip() for x in ans[i][3:].split(";;")] if ans[i].startswith("ok ") else []
+                iso = {lines[k].strip(): ans[k] for k in range(len(lines)) if not lines[k].startswith("@")}
+                for n, (rq, g) in enumerate(zip(reqs, got)):
+                    if rq in iso and iso[rq] != g:
+                        out.append((i, "%s build: call %d of an ordered history on one thread (%s) returned %s, but %s when run on its own" %
+                                    (prof, n + 1, rq.split()[0], g[:40], iso[rq][:40])))
+                        break
+                if len(got) != len(reqs):
+                    out.append((i, "%s build: ordered history not answered: %s" % (prof, ans[i][:80])))
         elif not l.startswith("@impl"):
             k = l.strip()
             if k in first:
